@@ -132,7 +132,7 @@ func checkStateResponse(c *fw.Ctx) {
 	}
 	applications := len(dels)
 	for _, call := range fw.Calls(fn) {
-		if cal := call.Common().StaticCallee(); cal != nil && c.P.IsRepoFunc(cal) && len(deletionIdioms(cal)) > 0 {
+		if cal := call.Common().StaticCallee(); cal != nil && c.P.IsRepoFunc(cal) && (len(deletionIdioms(cal)) > 0 || keepFilter(cal)) {
 			// a helper that filters in place, applied to one of the lists with the failure set
 			hasFailures := false
 			for _, a := range call.Common().Args {
@@ -320,10 +320,17 @@ func checkAuthChain(c *fw.Ctx) {
 	nerr := 0
 	for _, r := range fw.Returns(fn) {
 		if len(succ(r, fw.Reachable(fn, nil), nil)) == 0 {
-			nerr++
+			nerr += len(fw.ExitOrigins(r, fw.ErrIndex(fn)))
 		}
 	}
-	c.Check(nerr >= 2, rule, "provider errors and auth failures abort the verification", c.P.Pos(fn.Pos()), "", fmt.Sprintf("%d error returns", nerr))
+	switch {
+	case nerr >= 2:
+		c.Ok(rule, "provider errors and auth failures abort the verification", c.P.Pos(fn.Pos()), fmt.Sprintf("%d failure exits", nerr))
+	case nerr == 0:
+		c.Fail(rule, "provider errors and auth failures abort the verification", c.P.Pos(fn.Pos()), "VerifyEventAuthChain has no failure exit at all")
+	default:
+		c.Undecided(rule, "provider errors and auth failures abort the verification", fmt.Sprintf("%d failure exit recognised (the checks may have moved into helpers)", nerr))
+	}
 	// the event checked is the one popped; fetched events are queued
 	for _, call := range fw.CallsTo(fn, false, fw.NameIs("gmsl.checkAllowedByAuthEvents")) {
 		s := argSigs(call)
@@ -517,4 +524,17 @@ func checkUntrusted(c *fw.Ctx) {
 	if mism == 0 && len(unknown) == 0 {
 		c.Ok(rule, "keep iff parse succeeded or failed with a persistable validation error", c.P.Pos(fn.Pos()), "4 cases")
 	}
+}
+
+// keepFilter: the function rebuilds a list from the elements that have no entry in a
+// map[string]error (append under "not present in the failure set").
+func keepFilter(f *ssa.Function) bool {
+	for _, call := range fw.CallsTo(f, false, fw.NameIs("builtin.append")) {
+		for _, s := range fw.CondStrings(call.Block()) {
+			if strings.HasPrefix(s, "!") && strings.Contains(s, "[") && strings.Contains(s, ".EventID(") && strings.HasSuffix(s, "]#1") {
+				return true
+			}
+		}
+	}
+	return false
 }
